@@ -1,0 +1,178 @@
+// SPDX-License-Identifier: Unlicense OR BSD-3-Clause
+
+package tables
+
+// A NULL offset to a Coverage or a ClassDef table is legal (and found in real fonts,
+// for instance for the backtrack and lookahead classes of a chained context):
+// the parsers leave the field nil. The referenced table is then empty.
+
+func nonNilCoverage(c Coverage) Coverage {
+	if c == nil {
+		return Coverage1{}
+	}
+	return c
+}
+
+func nonNilClassDef(c ClassDef) ClassDef {
+	if c == nil {
+		return ClassDef1{}
+	}
+	return c
+}
+
+func nonNilCoverages(cs []Coverage) {
+	for i, c := range cs {
+		cs[i] = nonNilCoverage(c)
+	}
+}
+
+func (sc *SequenceContextFormat1) fillNull() { sc.coverage = nonNilCoverage(sc.coverage) }
+
+func (sc *SequenceContextFormat2) fillNull() {
+	sc.coverage = nonNilCoverage(sc.coverage)
+	sc.ClassDef = nonNilClassDef(sc.ClassDef)
+}
+
+func (sc *SequenceContextFormat3) fillNull() { nonNilCoverages(sc.Coverages) }
+
+func (sc *ChainedSequenceContextFormat1) fillNull() { sc.coverage = nonNilCoverage(sc.coverage) }
+
+func (sc *ChainedSequenceContextFormat2) fillNull() {
+	sc.coverage = nonNilCoverage(sc.coverage)
+	sc.BacktrackClassDef = nonNilClassDef(sc.BacktrackClassDef)
+	sc.InputClassDef = nonNilClassDef(sc.InputClassDef)
+	sc.LookaheadClassDef = nonNilClassDef(sc.LookaheadClassDef)
+}
+
+func (sc *ChainedSequenceContextFormat3) fillNull() {
+	nonNilCoverages(sc.BacktrackCoverages)
+	nonNilCoverages(sc.InputCoverages)
+	nonNilCoverages(sc.LookaheadCoverages)
+}
+
+// fillNullGSUB replaces the nil Coverage and ClassDef of a lookup subtable by empty tables
+func fillNullGSUB(lk GSUBLookup) GSUBLookup {
+	switch lk := lk.(type) {
+	case SingleSubs:
+		switch data := lk.Data.(type) {
+		case SingleSubstData1:
+			data.Coverage = nonNilCoverage(data.Coverage)
+			lk.Data = data
+		case SingleSubstData2:
+			data.Coverage = nonNilCoverage(data.Coverage)
+			lk.Data = data
+		}
+		return lk
+	case MultipleSubs:
+		lk.Coverage = nonNilCoverage(lk.Coverage)
+		return lk
+	case AlternateSubs:
+		lk.Coverage = nonNilCoverage(lk.Coverage)
+		return lk
+	case LigatureSubs:
+		lk.Coverage = nonNilCoverage(lk.Coverage)
+		return lk
+	case ContextualSubs:
+		switch data := lk.Data.(type) {
+		case ContextualSubs1:
+			(*SequenceContextFormat1)(&data).fillNull()
+			lk.Data = data
+		case ContextualSubs2:
+			(*SequenceContextFormat2)(&data).fillNull()
+			lk.Data = data
+		case ContextualSubs3:
+			(*SequenceContextFormat3)(&data).fillNull()
+			lk.Data = data
+		}
+		return lk
+	case ChainedContextualSubs:
+		switch data := lk.Data.(type) {
+		case ChainedContextualSubs1:
+			(*ChainedSequenceContextFormat1)(&data).fillNull()
+			lk.Data = data
+		case ChainedContextualSubs2:
+			(*ChainedSequenceContextFormat2)(&data).fillNull()
+			lk.Data = data
+		case ChainedContextualSubs3:
+			(*ChainedSequenceContextFormat3)(&data).fillNull()
+			lk.Data = data
+		}
+		return lk
+	case ReverseChainSingleSubs:
+		lk.coverage = nonNilCoverage(lk.coverage)
+		nonNilCoverages(lk.BacktrackCoverages)
+		nonNilCoverages(lk.LookaheadCoverages)
+		return lk
+	}
+	return lk
+}
+
+// fillNullGPOS replaces the nil Coverage and ClassDef of a lookup subtable by empty tables
+func fillNullGPOS(lk GPOSLookup) GPOSLookup {
+	switch lk := lk.(type) {
+	case SinglePos:
+		switch data := lk.Data.(type) {
+		case SinglePosData1:
+			data.coverage = nonNilCoverage(data.coverage)
+			lk.Data = data
+		case SinglePosData2:
+			data.coverage = nonNilCoverage(data.coverage)
+			lk.Data = data
+		}
+		return lk
+	case PairPos:
+		switch data := lk.Data.(type) {
+		case PairPosData1:
+			data.coverage = nonNilCoverage(data.coverage)
+			lk.Data = data
+		case PairPosData2:
+			data.coverage = nonNilCoverage(data.coverage)
+			data.ClassDef1 = nonNilClassDef(data.ClassDef1)
+			data.ClassDef2 = nonNilClassDef(data.ClassDef2)
+			lk.Data = data
+		}
+		return lk
+	case CursivePos:
+		lk.coverage = nonNilCoverage(lk.coverage)
+		return lk
+	case MarkBasePos:
+		lk.markCoverage = nonNilCoverage(lk.markCoverage)
+		lk.BaseCoverage = nonNilCoverage(lk.BaseCoverage)
+		return lk
+	case MarkLigPos:
+		lk.MarkCoverage = nonNilCoverage(lk.MarkCoverage)
+		lk.LigatureCoverage = nonNilCoverage(lk.LigatureCoverage)
+		return lk
+	case MarkMarkPos:
+		lk.Mark1Coverage = nonNilCoverage(lk.Mark1Coverage)
+		lk.Mark2Coverage = nonNilCoverage(lk.Mark2Coverage)
+		return lk
+	case ContextualPos:
+		switch data := lk.Data.(type) {
+		case ContextualPos1:
+			(*SequenceContextFormat1)(&data).fillNull()
+			lk.Data = data
+		case ContextualPos2:
+			(*SequenceContextFormat2)(&data).fillNull()
+			lk.Data = data
+		case ContextualPos3:
+			(*SequenceContextFormat3)(&data).fillNull()
+			lk.Data = data
+		}
+		return lk
+	case ChainedContextualPos:
+		switch data := lk.Data.(type) {
+		case ChainedContextualPos1:
+			(*ChainedSequenceContextFormat1)(&data).fillNull()
+			lk.Data = data
+		case ChainedContextualPos2:
+			(*ChainedSequenceContextFormat2)(&data).fillNull()
+			lk.Data = data
+		case ChainedContextualPos3:
+			(*ChainedSequenceContextFormat3)(&data).fillNull()
+			lk.Data = data
+		}
+		return lk
+	}
+	return lk
+}
